@@ -28,6 +28,7 @@ TEXT_ALPHABET = (
     "abcdefghijklmnopqrstuvwxyzABCXYZ0123456789 ,=+<>#;\\\"'()*/-_.:@"
     "\x00\x01\x1f\x7f\u0080éÿĀΩ中文�￿\U0001f600\U0010ffff́​"
     "ﬁ²Ａ\u00a0Ⅳá"
+    "%%{}\u212a\u017f\u0131\u0130\u0661"
 )
 
 
